@@ -4,12 +4,13 @@ import json, os, glob
 HERE = os.path.dirname(os.path.dirname(os.path.abspath(__file__)))
 kp = os.path.join(HERE, 'KNOWN_FINDINGS.json')
 data = json.load(open(kp)) if os.path.exists(kp) else {'findings': []}
-by = {(e['property'], e['key']): e for e in data['findings']}
+old = {(e['property'], e['key']): e for e in data['findings']}
+by = {}      # the per-property files are authoritative: an entry removed there (e.g. a re-keyed finding) disappears here too
 for f in sorted(glob.glob(os.path.join(HERE, 'findings', '*.json'))):
     extra = json.load(open(f))
     extra = extra if isinstance(extra, list) else extra.get('findings', [extra])
     for e in extra:
-        by[(e['property'], e['key'])] = {**by.get((e['property'], e['key']), {}), **e}
+        by[(e['property'], e['key'])] = {**old.get((e['property'], e['key']), {}), **e}
 data['findings'] = [by[k] for k in sorted(by)]
 data['fixed_lines'] = [f"fixed: property={e['property']} {e.get('commit','?')} {e.get('what_fails','')}" for e in data['findings'] if e.get('status') == 'fixed']
 json.dump(data, open(kp, 'w'), indent=1)
